@@ -89,6 +89,7 @@ def main():
     keys = set()
     case_digests = {}
     case_digests_hs = {}
+    case_tags = {}
     viol_by_sig = {}
     samples = []
     t0 = time.time()
@@ -129,6 +130,8 @@ def main():
             n_disc += 1
         keys.update(res["keys"])
         case_digests[idx] = res["digest"]
+        if res.get("tags"):
+            case_tags[idx] = res["tags"]
         if "digest_hs" in res:
             case_digests_hs[idx] = res["digest_hs"]
         for v in res["violations"]:
@@ -160,7 +163,7 @@ def main():
     for v in out_viol:
         emit({"type": "violation", "v": v})
     emit({"type": "stats", "cases": n_cases, "executions": n_exec, "discarded": n_disc,
-          "keys": sorted(keys), "case_digests": case_digests, "case_digests_hs": case_digests_hs, "samples": samples,
+          "keys": sorted(keys), "case_digests": case_digests, "case_digests_hs": case_digests_hs, "case_tags": case_tags, "samples": samples,
           "probes": dict(prop.probes), "world": prop.world_stats(),
           "hashseed": os.environ.get("PYTHONHASHSEED"), "wall": time.time() - t0})
     emit({"type": "done"})
